@@ -350,6 +350,7 @@ def zero_vectors_mean_no_cell():
             G.add(f"kept_unless_all_zero[{i}]", path + cons, z3.Not(allzero), inp)
     t.unitcell_vectors = None
     G.add("none_clears", [], z3.BoolVal(t._unitcell_lengths is None and t._unitcell_angles is None), {})
-    r = G.run(None)
+    from harness import c16_replay
+    r = G.run(c16_replay.replay("zero_vectors"))
     r["paths"] = len(paths)
     return r
